@@ -2,8 +2,10 @@ package kernel
 
 import (
 	"fmt"
+	"github.com/emitter-io/emitter/internal/verifauto"
 	"os"
 	"runtime/debug"
+	"strconv"
 	"strings"
 	"testing"
 	"testing/synctest"
@@ -12,15 +14,15 @@ import (
 
 // World is one workload+oracle.
 type World struct {
-	Property    string
-	Bubble      bool          // run inside a synctest bubble (fake clock, quiescence)
-	Run         func(c *Ctx)  // the simulated run; raises violations through c.Check
-	RunsPerProc int           // worker processes are recycled after this many runs
-	RunTimeout  time.Duration // real-time watchdog per run
-	Rule        string        // how cases are generated and what makes one non-trivial (evidence)
-	Real        []string      // components that run real code
-	Stub        []string      // components that are stubs
-	Assumptions []string
+	Property        string
+	Bubble          bool          // run inside a synctest bubble (fake clock, quiescence)
+	Run             func(c *Ctx)  // the simulated run; raises violations through c.Check
+	RunsPerProc     int           // worker processes are recycled after this many runs
+	RunTimeout      time.Duration // real-time watchdog per run
+	Rule            string        // how cases are generated and what makes one non-trivial (evidence)
+	Real            []string      // components that run real code
+	Stub            []string      // components that are stubs
+	Assumptions     []string
 	HangIsViolation bool // C09: a run that does not finish is the violation
 }
 
@@ -31,6 +33,11 @@ var Registry = map[string]*World{}
 func Register(w *World) {
 	if w.RunsPerProc == 0 {
 		w.RunsPerProc = 400
+	}
+	if v := os.Getenv("VERIF_RUN_TIMEOUT_S"); v != "" { // debugging aid
+		if n, err := strconv.Atoi(v); err == nil {
+			w.RunTimeout = time.Duration(n) * time.Second
+		}
 	}
 	if w.RunTimeout == 0 {
 		w.RunTimeout = 120 * time.Second
@@ -70,6 +77,9 @@ func RunOnce(t *testing.T, w *World, tape *Tape, trace bool, known []KnownFindin
 		c.Params[k] = v
 	}
 	c.Scratch = scratch
+	// the order in which the code under test walks its replicated maps is part of the run: a
+	// function of the run's seed (tools/autoyield routes those walks through verifauto.Keys)
+	verifauto.OrderSeed = tape.Seed | 1
 	res := &Result{}
 	body := func() {
 		defer func() {
